@@ -113,6 +113,7 @@ func TestSim(t *testing.T) {
 	minimised := map[string]bool{}
 	for j := *fShard; j < *fRuns; j += *fNShards {
 		rs := mixSeed(*fSeed, j)
+		curRunIndex = j
 		rr := p.run(t, rs, *fTier)
 		res.Runs++
 		res.Stats.merge(rr.Stats)
